@@ -161,7 +161,7 @@ def shoc_simple(ny=3, nx=4, **kw):
 
 
 def shoc_standard(ny=3, nx=4, *, node_holes=(), skew=0.1, radial=False, time=2, depth=2, as_coords=True, extra=True, fortran=False,
-                  x_transposed=()):
+                  x_transposed=(), centre_holes=()):
     gx, gy = curvilinear(ny, nx, skew, radial)
     for (hj, hi) in node_holes:
         if 0 <= hj <= ny and 0 <= hi <= nx:
@@ -172,6 +172,10 @@ def shoc_standard(ny=3, nx=4, *, node_holes=(), skew=0.1, radial=False, time=2, 
         return sum(arrs) / len(arrs)
     x_centre = mean(gx[:-1, :-1], gx[:-1, 1:], gx[1:, 1:], gx[1:, :-1])
     y_centre = mean(gy[:-1, :-1], gy[:-1, 1:], gy[1:, 1:], gy[1:, :-1])
+    for (hj, hi) in centre_holes:
+        # a cell whose centre coordinates are missing although its four nodes are there: the cell is defined by its nodes
+        x_centre[hj, hi] = numpy.nan
+        y_centre[hj, hi] = numpy.nan
     x_left, y_left = mean(gx[:-1, :], gx[1:, :]), mean(gy[:-1, :], gy[1:, :])
     x_back, y_back = mean(gx[:, :-1], gx[:, 1:]), mean(gy[:, :-1], gy[:, 1:])
     data_vars, coords = {}, {}
@@ -401,7 +405,7 @@ def build(spec):
     """spec = {'conv': name, **kwargs} (JSON-able) -> dataset"""
     spec = dict(spec)
     conv = spec.pop('conv')
-    for k in ('holes', 'node_holes', 'split', 'merge', 'tables'):
+    for k in ('holes', 'node_holes', 'centre_holes', 'split', 'merge', 'tables'):
         if k in spec:
             spec[k] = tuple(tuple(x) if isinstance(x, list) else x for x in spec[k])
     return BUILDERS[conv](**spec)
